@@ -1,5 +1,6 @@
 //! C13 — diagnostics do not depend on how the same program is written.
 
+use crate::model::*;
 use crate::driver::*;
 use crate::imp;
 use crate::pool::Pool;
@@ -61,19 +62,36 @@ impl C13 {
     }
 }
 
+/// programs the pool does not contain: data lists that continue on the following lines
+pub fn extra_programs() -> Vec<(Program, String)> {
+    let mut s = vec![label("main"), inst(Inst::La(T0, "tbl".into())), lw(A0, 4, T0), li(A7, 1), ecall(), li(A7, 10), ecall()];
+    s.extend([
+        Stmt::Directive(".data".into()),
+        label("tbl"),
+        Stmt::Directive(".word 1".into()),
+        Stmt::Directive("2".into()),
+        Stmt::Directive("3, 4".into()),
+        label("msg"),
+        Stmt::Directive(".asciz \"x\"".into()),
+    ]);
+    vec![(Program { stmts: s }, "data-list-continued-on-following-lines".to_string())]
+}
+
 impl Property for C13 {
     fn id(&self) -> &'static str {
         "C13"
     }
     fn cases(&self, tier: Tier) -> u64 {
-        self.pool(tier).count()
+        self.pool(tier).count() + extra_programs().len() as u64
     }
     fn chunk(&self, _tier: Tier) -> u64 {
         40
     }
     fn run_case(&self, tier: Tier, case: u64, acc: &mut Acc) {
         acc.count("cases", 1);
-        let Some((prog, tag)) = self.pool(tier).get(case) else {
+        let n_pool = self.pool(tier).count();
+        let member = if case >= n_pool { extra_programs().into_iter().nth((case - n_pool) as usize) } else { self.pool(tier).get(case) };
+        let Some((prog, tag)) = member else {
             acc.count("not_a_member", 1);
             return;
         };
